@@ -339,6 +339,24 @@ fn history_independence(ctx: &mut Ctx, buf: &[u8], o: &Opts) {
     });
     if n % 32 == 0 || n % 257 < 8 {
         let d = outcome_digest(buf, &o.creds);
+        // ... nor of whether anybody listens to the library's tracing events (a subscriber that enables
+        // and formats everything): the same answers, and no panic in an argument that is only evaluated then
+        let ds = crate::trace_sub::with_subscriber(|| outcome_digest(buf, &o.creds));
+        ctx.count("decoded-again-under-a-tracing-subscriber");
+        if ds != d {
+            let panicked = ds.starts_with("panic:");
+            let tag = if panicked { "C01".to_string() } else if ["C02", "C04", "C09", "C10", "C17"].contains(&ctx.prop.as_str()) { ctx.prop.clone() } else { "C02".to_string() };
+            let tag = if panicked && ["C02", "C17"].contains(&ctx.prop.as_str()) { ctx.prop.clone() } else { tag };
+            ctx.violation(
+                &tag,
+                "answer-depends-only-on-the-buffer",
+                "Message::from_bytes",
+                if panicked { "panic-under-tracing-subscriber" } else { "tracing-subscriber" },
+                || wit_bytes("under-tracing-subscriber", buf, o),
+                d.chars().take(300).collect(),
+                format!("with a tracing subscriber installed: {}", ds.chars().take(300).collect::<String>()),
+            );
+        }
         RECENT.with(|r| {
             let mut r = r.borrow_mut();
             r.push((buf.to_vec(), o.creds.clone(), d));
